@@ -109,20 +109,76 @@ def parse_kani_output(text):
     return res
 
 
+def parse_kani_json(path):
+    """structured results written by `cargo kani --export-json` -> same shape as parse_kani_output"""
+    d = json.load(open(path))
+    res = {}
+    pdet = {x["harness_id"]: x["property_details"] for x in d.get("property_details", [])}
+    errs = {x["harness_id"]: x for x in d.get("error_details", [])}
+    stats = {x["harness_id"]: x.get("cbmc_stats", {}) for x in d.get("cbmc", [])}
+    for r in d.get("verification_results", {}).get("results", []):
+        hid = r["harness_id"]
+        h = hid.split("::")[-1]
+        checks = r.get("checks", [])
+        failed = [c for c in checks if c.get("status") in ("Failure", "FAILURE", "Failed")]
+        pd = pdet.get(hid, {})
+        covers_sat = pd.get("satisfied", 0)
+        covers_total = pd.get("satisfied", 0) + pd.get("unsatisfiable", 0)
+        st = r.get("status", "")
+        if st == "Success":
+            status = "ok"
+        elif failed:
+            status = "fail"
+        else:
+            status = "error"
+        res[h] = {"status": status, "harness_id": hid,
+                  "failed_checks": [c.get("description", "").strip('"') for c in failed],
+                  "failed_locations": [f"{c.get('location', {}).get('file')}:{c.get('location', {}).get('line')}" for c in failed],
+                  "cover_satisfied": covers_sat, "cover_total": covers_total,
+                  "time_s": (r.get("duration_ms") or 0) / 1000.0,
+                  "checks": pd.get("total_properties", len(checks)), "n_failed": pd.get("failed", len(failed)),
+                  "undetermined": pd.get("undetermined", 0),
+                  "solver_time_s": stats.get(hid, {}).get("runtime_decision_procedure_s"),
+                  "tool_error": (errs.get(hid, {}).get("has_errors") and json.dumps(errs.get(hid))[:300]) or None}
+        if status == "fail" and pd.get("undetermined", 0) and all("unwinding assertion" in f for f in res[h]["failed_checks"]):
+            res[h]["status"] = "error"
+            res[h]["tool_error"] = "unwinding bound too small: " + "; ".join(res[h]["failed_checks"])
+    return res, d.get("tools", {})
+
+
 def run_kani(scratch, harnesses, jobs=8, timeout_s=1800, extra=()):
+    out_json = os.path.join(scratch, "kani-results.json")
+    if os.path.exists(out_json):
+        os.remove(out_json)
     cmd = ["cargo", "kani", "-Z", "stubbing", "-Z", "unstable-options", "--output-format", "terse", "-j", str(jobs),
-           "--harness-timeout", f"{timeout_s}s"]
+           "--harness-timeout", f"{timeout_s}s", "--export-json", out_json]
     for h in harnesses:
         cmd += ["--harness", h]
     cmd += list(extra)
     env = dict(os.environ, CARGO_NET_OFFLINE="true")
     t0 = time.time()
-    p = subprocess.run(cmd, cwd=os.path.join(scratch, "lib"), capture_output=True, text=True, env=env,
-                       timeout=timeout_s * max(1, (len(harnesses) + jobs - 1) // jobs) + 900)
+    try:
+        p = subprocess.run(cmd, cwd=os.path.join(scratch, "lib"), capture_output=True, text=True, env=env,
+                           timeout=timeout_s * max(1, (len(harnesses) + jobs - 1) // jobs) + 900)
+        out = p.stdout + "\n" + p.stderr
+        rc = p.returncode
+    except subprocess.TimeoutExpired as e:
+        out = ((e.stdout or b"").decode(errors="replace") if isinstance(e.stdout, bytes) else (e.stdout or "")) + "\n[kx: cargo kani timed out]"
+        rc = -1
     wall = time.time() - t0
-    out = p.stdout + "\n" + p.stderr
-    res = parse_kani_output(out)
-    return {"cmd": " ".join(cmd), "rc": p.returncode, "results": res, "raw": out, "wall_s": wall}
+    res, tools = {}, {}
+    if os.path.exists(out_json):
+        try:
+            res, tools = parse_kani_json(out_json)
+        except Exception as e:
+            out += f"\n[kx: cannot parse {out_json}: {e}]"
+    if not res:
+        res = parse_kani_output(out)
+    # stubs actually applied, from the text log
+    for m in re.finditer(r"Checking harness ([\w:]+)\.\.\.", out):
+        pass
+    shown = " ".join(cmd).replace(out_json, "<scratch>/kani-results.json")
+    return {"cmd": shown, "rc": rc, "results": res, "raw": out, "wall_s": wall, "tools": tools}
 
 
 def concrete_playback(scratch, harness, timeout_s=1800):
